@@ -28,7 +28,7 @@ def kinds_of(shape):
     n, f, fp, pat = shape["n"], shape["fault"], shape["fpos"], shape["pat"]
     out = []
     for j in range(1, n + 1):
-        if f in "EPNMASCD" and len(f) == 1 and j == fp:
+        if f in "EPNMASCDW" and len(f) == 1 and j == fp:
             out.append(f)
         elif pat == "allU":
             out.append("U")
@@ -75,6 +75,9 @@ def file_text(shape, j, kinds, formatted=False):
         return (pre + f"fn  k{j}( ){{}}\n").encode() + b"// \xff\xfe\n", None
     if k in "CD":
         k = "U"
+    if k == "W":
+        lf = pre + ("\n" if pre else "") + body("F", j, True)
+        return lf.replace("\n", "\r\n").encode(), lf.encode()
     sep = "\n" if pre and k == "F" else ""
     on_disk = pre + sep + body(k, j, False)
     after = pre + ("\n" if pre and k == "F" else "") + body(k, j, True)
@@ -146,6 +149,8 @@ def cli_flags(sc):
             out += ["--emit", m]
         elif m == "modified":
             out += ["--config", "emit_mode=ModifiedLines"]
+    if fl.get("nl") == "unix":
+        out += ["--config", "newline_style=Unix"]
     if fl["backup"]:
         out.append("--backup")
     if fl["list"]:
@@ -297,6 +302,13 @@ def observe(sc, layout, code, out, err):
             if k != "S":
                 p = str(layout[r]["files"][j - 1][0])
                 emitted.append((p, k, new_by_name.get(p, orig_by_name.get(p))))
+    unix = sc["fl"].get("nl") == "unix"
+
+    def rew(k):
+        return k in "UD" or (k == "W" and unix)
+    # (a CRLF file under newline_style=Auto is printed with LF by the stdout emitter while
+    # files mode leaves it alone: that is C08's Auto finding, not judged here)
+    emitted = [(p, ("U" if rew(k) else "F"), t) for (p, k, t) in emitted]
     outp_ok, report_ok = True, True
     try:
         if eff == "stdout":
@@ -305,7 +317,10 @@ def observe(sc, layout, code, out, err):
         elif eff == "files" and sc["fl"]["list"] and not sc["fl"]["backup"]:
             outp_ok = out == "".join(p + "\n" for (p, k, t) in emitted if k == "U")
         elif eff == "diff" and sc["fl"]["list"]:
-            outp_ok = out == "".join(p + "\n" for (p, k, t) in emitted if k == "U")
+            # the property fixes which files are named, not the wording of the line
+            want = [p for (p, k, t) in emitted if k == "U"]
+            got = [ln for ln in out.split("\n") if ln]
+            outp_ok = len(got) == len(want) and all(g.endswith(w) for g, w in zip(got, want))
         elif eff == "diff":
             rebuilt = apply_diff(out, orig_by_name)
             for (p, k, t) in emitted:
@@ -345,26 +360,33 @@ def generate(tier, cfg="Pipeline_gen.cfg"):
     return scs, res
 
 
-def select(scs, tier, seed, n_quick=450):
+def select(scs, tier, seed, n_quick=650):
+    """thorough: everything.  quick: a fixed stratified core (every fault kind x every
+    mode/flag combination, alone with all other files formatted, alone with the others
+    unformatted, and next to a healthy root) plus a VERIF_SEED-selected sample."""
     if tier == "thorough":
         return scs
     rng = random.Random(seed)
-    # canary core: every (fault kind) x (files plain, check, backup) with the companion
     core_s, rest = [], []
     seen = set()
     for s in scs:
-        f = [r["fault"] for r in s["roots"]]
         fl = s["fl"]
-        tagk = (tuple(f), len(s["roots"]), s["mode"], fl["check"], fl["backup"], fl["list"])
-        shape_small = all(r["n"] <= 2 for r in s["roots"])
-        if shape_small and len(s["roots"]) in (2, 3) and tagk not in seen and \
-                s["mode"] == "files" and not fl["list"]:
-            seen.add(tagk)
+        combo = (s["mode"], fl["check"], fl["backup"], fl["list"], fl.get("nl"))
+        faulty = [r for r in s["roots"] if r["fault"] != "none"]
+        f = faulty[0] if faulty else s["roots"][0]
+        strata = None
+        if len(s["roots"]) == 1 and f["n"] == 2:
+            strata = ("alone", f["fault"], f["pat"], combo)
+        elif len(s["roots"]) == 2 and f["n"] <= 2 and s["roots"][0] is f and \
+                (s["mode"] == "files" or fl["check"]):
+            strata = ("pair", f["fault"], "any", combo)
+        if strata and f["pat"] != "mixed" and strata not in seen:
+            seen.add(strata)
             core_s.append(s)
         else:
             rest.append(s)
     rng.shuffle(rest)
-    return core_s + rest[:max(0, n_quick - len(core_s))]
+    return core_s + rest[:max(150, n_quick - len(core_s))]
 
 
 def run_scenarios(scs, trace=False, workers=12):
